@@ -13,11 +13,11 @@ import (
 	"encoding/json"
 	"fmt"
 	"io"
+	"math"
 	"net/http"
 	"net/http/httptest"
 	"slices"
 	"strings"
-	"math"
 	"testing"
 	"testing/synctest"
 	"time"
